@@ -32,8 +32,9 @@ verus! {
 //@assume U6 expand.rs render_enum_line
 //@assume U6 expand.rs render_enum_ghost_line
 
+// C06: ghost-variant skipping and the default-case condition are decided by the instructions applicable to THIS counterpart
 //@fn expand.rs enum_init_block_inner
-//@props C02,C09,C16
+//@props C02,C06,C09,C16
 //@attr #[verifier::loop_isolation(false)]
 //@attr #[verifier::allow_complex_invariants]
 //@uses flat_lemmas::group_flat
